@@ -120,6 +120,7 @@ var verifC10PathTweaks = []verifC10Tweak{
 	{"publishUser", l("u", "", verifC10Sha, "any")}, {"publishPass", l("p", "", verifC10Sha)},
 	{"readUser", l("u", "")}, {"readPass", l("p", "")},
 	{"publishIPs", l([]any{"1.2.3.4"}, []any{})}, {"readIPs", l([]any{"10.0.0.0/8"}, []any{})},
+	{"rtspUDPSourcePortRange", l([]any{1, 2}, []any{5}, []any{}, []any{1, 2, 3}, []any{40000, 30000})},
 	{"rpiCameraCamID", l(0, 1, 2)}, {"rpiCameraSecondary", l(true, false)},
 	{"rpiCameraWidth", l(0, 1920, 2048, 1924, 640, 2040)}, {"rpiCameraHeight", l(0, 1080, 2048, 481, 480)},
 	{"rpiCameraCodec", l("auto", "mjpeg", "hardwareH264", "softwareH264", "x")},
@@ -139,7 +140,6 @@ var verifC10PathTweaks = []verifC10Tweak{
 	{"rpiCameraIDRPeriod", l(30)}, {"rpiCameraBitrate", l(1000)},
 	{"sourceProtocol", l("udp", "tcp", "automatic")}, {"rtspTransport", l("tcp", "zz")},
 	{"recordMaxPartSize", l("50M", "1500")}, {"maxReaders", l(0, 5)},
-	{"rtspUDPSourcePortRange", l([]any{1, 2}, []any{1})},
 	{"unknownPathParameter", l(1)},
 }
 
@@ -639,6 +639,10 @@ var verifC10Regress = []struct {
 	{"", nil, []verifC10KV{{"MTX_RECORDPARTDURATIONX", "1s"}}}, // open: nil receiver
 	{"", nil, []verifC10KV{{"MTX_PATHS_CAM_RTSPTRANSPORT_X", "tcp"}}},
 	{"", nil, []verifC10KV{{"MTX_AUTHMETHODS", "basic"}}},
+	// open: a port "range" that is not a pair is accepted (the rtsp static source then indexes [0] and [1])
+	{"paths:\n  cam:\n    source: rtsp://127.0.0.1:8554/x\n    rtspUDPSourcePortRange: [5]\n", nil, nil},
+	{"pathDefaults:\n  rtspUDPSourcePortRange: []\n", nil, nil},
+	{"", nil, []verifC10KV{{"MTX_PATHS_CAM_RTSPUDPSOURCEPORTRANGE", "1,2,3"}}},
 }
 
 func verifC10Str(s string) *string { return &s }
